@@ -283,6 +283,23 @@ func c04RunValues(r *verifkit.Run, w *verifkit.Worker, n int, trials int) {
 			for _, h := range e.Hist {
 				vs = append(vs[:len(vs):len(vs)], h[0])
 			}
+			{ // Σ|term| over the events: the scale of the rounding error of any summation order
+				scale := 1.0
+				switch e.Kind {
+				case "V", "P":
+					scale = e.Count
+				case "A":
+					scale = e.Count / e.Total
+				case "U":
+					scale = e.Count / float64(len(e.Vals))
+				}
+				for _, v := range e.Vals {
+					absSum += math.Abs(v) * scale
+				}
+				for _, h := range e.Hist {
+					absSum += math.Abs(h[0]) * h[1] * scale
+				}
+			}
 			if e.Kind != "C" {
 				valued++
 			}
